@@ -352,34 +352,13 @@ pub fn c14(cfg: &Cfg, rep: &mut Report) {
 /// and the grounded interpretation of original, imported and rebuilt object (equal, and equal to the oracle's
 /// where it is available).
 fn c14_big(_cfg: &Cfg, rep: &mut Report, case_seed: u64) {
-    use oracle::F;
     let mut rng = Rng::new(case_seed ^ 0xB14);
     let tall = rng.chance(1, 2);
     let (g, text, want_grounded): (oracle::gen::GenAdf, String, Option<Vec<Val>>) = if tall {
-        let n = rng.range(64, 90);
-        let mut ac: Vec<F> = (0..n)
-            .map(|i| match rng.below(5) {
-                0 => F::Top,
-                1 => F::Bot,
-                2 => F::Atom(i),
-                3 => F::not(F::Atom(rng.below(n))),
-                _ => F::Atom(rng.below(n)),
-            })
-            .collect();
-        for _ in 0..rng.range(1, 2) {
-            let s = rng.below(n);
-            let conj = rng.bool();
-            let mut f = if conj { F::Top } else { F::Bot };
-            for a in (0..n).rev() {
-                if a != s && !rng.chance(1, 12) {
-                    f = if conj { F::and(F::Atom(a), f) } else { F::or(F::Atom(a), f) };
-                }
-            }
-            ac[s] = f;
-        }
-        let g = oracle::gen::GenAdf { n, labels: (0..n).map(|i| format!("t{}", i)).collect(), ac, family: "tall" };
+        let g = oracle::gen::gen_tall(&mut rng);
         let text = g.canonical();
-        (g, text, None)
+        let want = oracle::gen::tall_grounded(&g);
+        (g, text, Some(want))
     } else {
         let (g, text, sem) = crate::sem::large_case(case_seed);
         let (gr, _) = sem.grounded_rounds();
@@ -394,16 +373,7 @@ fn c14_big(_cfg: &Cfg, rep: &mut Report, case_seed: u64) {
         Ok(o) => o,
         Err(e) => {
             let msg = e.describe();
-            if tall && cfg!(feature = "adhoccountmodels") && msg.contains("overflow") {
-                // With ad-hoc MODEL counting the store multiplies by 2^(depth difference) in machine words while it
-                // creates a node: a diagram of 64+ levels cannot even be built when overflow checks are on. There
-                // is no object to round-trip then (nothing for C14 to judge); as a difference between feature sets
-                // it belongs to C12, whose run of this monitor asks for it to be reported.
-                if _cfg.flag("for_c12") {
-                    rep.violation("tall-diagram-aborts:adhoccountmodels", format!("{} statements, a condition chained over nearly all of them: {}", g.n, msg), replay("build"));
-                } else {
-                    rep.count("tall_originals_that_cannot_be_built_with_adhoccountmodels", 1);
-                }
+            if tall && tall_abort_is_known(_cfg, rep, &msg, g.n, replay("build")) {
                 return;
             }
             rep.violation("build-failed", msg, replay("build"));
